@@ -45,7 +45,7 @@ fn build(templ: &'static str, traits: &'static str, parts: Vec<(usize, String, S
     // trait instruction asks for a rendered body (one for another counterpart would)
     if tags.iter().any(|t| t == "traits=quick-return") {
         let asks_body = parts.iter().any(|p| {
-            let name = p.2.split('@').next().unwrap_or("");
+            let name = p.2.split(|c| c == '@' || c == '(').next().unwrap_or("").trim();
             p.2.ends_with("@type") && crate::model::all_trait_names().iter().any(|n| *n == name) && !p.1.contains("return")
         });
         if !asks_body {
